@@ -15,14 +15,14 @@ using namespace c13;
 
 namespace
 {
-  struct XCfg { std::string kind; int a, b, refine, P; std::string assign; int space, bs; };
+  struct XCfg { std::string kind; int a, b, refine, P; std::string assign; int space, bs; int renum = 0; };
 
   template<typename Mesh_, int space_id_, int BS_>
   bool model_digests(const Cfg& cf, int op, std::set<uint64_t>& digests, uint64_t& execs, bool& exact, std::string& err)
   {
     World<Mesh_, space_id_, BS_> w;
     if(!w.build(cf)) { err = w.error; return false; }
-    exact = (op == op_gate || op == op_sync0 || op == op_apply || op == op_diag || op == op_lump || op == op_to1 || op == op_rect_apply || op == op_rect_to1) || (w.B.all_pow2 && op != op_pcg);
+    exact = (op == op_gate || op == op_sync0 || op == op_apply || op == op_diag || op == op_lump || op == op_to1 || op == op_rect_apply || op == op_rect_to1 || op == op_empty) || (w.B.all_pow2 && op != op_pcg);
     for(int mode = 0; mode < 2; ++mode)
     {
       minimpi::Explorer ex;
@@ -66,7 +66,7 @@ int main(int argc, char** argv)
   spec.rule = "case = (configuration of c13_sync, operation with an exact result); the digest set enumerated under the MPI model is compared with the digest "
     "of a real OpenMPI run (mpirun -n P) of the same rank body. Non-trivial = the real run happened, hashed by (configuration, operation).";
   spec.bounds_quick = "2 configurations (P=2, P=3) x 2 operations";
-  spec.bounds_thorough = "10 configurations P in {2,3,4} (quads 2x2, 3x2, 2x2 refined, triangle fan; Lagrange1/2, CroRavRanTur; scalar and blocked) x 7 exact operations";
+  spec.bounds_thorough = "10 configurations P in {2,3,4} (quads 2x2, 3x2, 2x2 refined, triangle fan; Lagrange1/2, CroRavRanTur; scalar and blocked) x 9 exact operations (3 configurations with scrambled patch numbering)";
   spec.assumptions = {"OpenMPI as shipped in the image is a conforming MPI implementation; one real schedule per run (whatever the machine produces)",
     "the cross-run is evidence for the model, it never decides the property: it is skipped if mpirun or build/<tag>/bin/c13_real.rmpi is missing"};
   spec.deadline_quick_s = 170; spec.deadline_thorough_s = 1500;
@@ -86,7 +86,7 @@ int main(int argc, char** argv)
     const bool T = c.thorough;
     std::vector<XCfg> cfgs;
     cfgs.push_back({"block", 2, 2, 0, 2, "0110", sp_lagrange1, 1});
-    cfgs.push_back({"block", 2, 2, 0, 3, "0122", sp_lagrange2, 2});
+    cfgs.push_back({"block", 2, 2, 0, 3, "0122", sp_lagrange2, 2, 1});
     if(T)
     {
       cfgs.push_back({"block", 2, 2, 0, 4, "0123", sp_lagrange1, 1});
@@ -97,14 +97,17 @@ int main(int argc, char** argv)
       cfgs.push_back({"star", 4, 0, 0, 4, "0123", sp_lagrange1, 1});
       cfgs.push_back({"star", 5, 0, 0, 3, "01201", sp_crouzeix, 2});
       cfgs.push_back({"star", 4, 0, 0, 2, "0101", sp_p0, 1});
+      cfgs.push_back({"block", 2, 2, 0, 4, "0123", sp_lagrange2, 2, 1});   // scrambled patch numberings: mirrors not ascending
+      cfgs.push_back({"block", 3, 2, 0, 3, "012210", sp_lagrange1, 2, 3});
+      cfgs.push_back({"star", 4, 0, 0, 4, "0123", sp_crouzeix, 1, 2});
     }
     std::vector<int> ops = {op_sync0, op_apply};
-    if(T) ops = {op_gate, op_sync0, op_sync1, op_apply, op_diag, op_lump, op_to1};
+    if(T) ops = {op_gate, op_sync0, op_sync1, op_apply, op_diag, op_lump, op_to1, op_rect_to1, op_splitter};
     for(const XCfg& x : cfgs)
     for(int op : ops)
     {
       if(!c.want()) continue;
-      Cfg cf; cf.refine = x.refine; cf.P = x.P; cf.space = x.space; cf.bs = x.bs;
+      Cfg cf; cf.refine = x.refine; cf.P = x.P; cf.space = x.space; cf.bs = x.bs; cf.renum = x.renum;
       for(char ch : x.assign) cf.assign.push_back(ch - '0');
       cf.mesh = (x.kind == "block") ? vm::gen_block(2, x.a, x.b, 0) : vm::gen_star(true, 2, x.a);
       c.desc([&]{ return cf.str() + " operation=" + op_name(op); });
@@ -118,7 +121,7 @@ int main(int argc, char** argv)
       c.check(digests.size() == 1, std::string("order dependence: ") + op_name(op), [&]{ return std::to_string(digests.size()) + " digests under the model"; });
       if(!have_mpirun || !have_bin) { c.count(have_mpirun ? "skipped: c13_real.rmpi not built" : "skipped: mpirun not found"); c.outcome("skipped"); continue; }
       char cmd[8192];
-      snprintf(cmd, sizeof cmd, "mpirun --allow-run-as-root --oversubscribe --bind-to none -n %d '%s' %s %d %d %d %s %d %d %d 2>&1", x.P, realbin.c_str(), x.kind.c_str(), x.a, x.b, x.refine, x.assign.c_str(), x.space, x.bs, op);
+      snprintf(cmd, sizeof cmd, "mpirun --allow-run-as-root --oversubscribe --bind-to none -n %d '%s' %s %d %d %d %s %d %d %d %d 2>&1", x.P, realbin.c_str(), x.kind.c_str(), x.a, x.b, x.refine, x.assign.c_str(), x.space, x.bs, op, x.renum);
       FILE* fp = popen(cmd, "r");
       std::string outp; unsigned long long dg = 0; bool have = false;
       if(fp)
